@@ -119,6 +119,8 @@ def run(ck):
         pre_env = e
     sinks = stmts_with_env(sel, lambda s: isinstance(s, ast.Expr) and call_attr(s.value) == 'append' and u(s.value.func.value) == sym, stmts=cl.body, env=pre_env)
     ck.ob('DT-contact', sb.loc(cl), len(sinks) == 1, 'exactly one site adds a contact to the returned list ({} found)'.format(len(sinks)), key='DT-contact|single-site')
+    ck.ob('DT-contact', sb.loc(cl), not any(isinstance(n, (ast.Break, ast.Return)) for n in ast.walk(cl)),
+          'every entry of the contact map is examined: nothing ends the loop early (an entry that cannot be resolved is skipped, the ones after it still count)', key='DT-contact|all-entries')
     excl = stmts_with_env(sel, lambda s: isinstance(s, ast.Expr) and call_attr(s.value) == 'append' and "interactions['exclusions']" in u(s), stmts=cl.body, env=pre_env)
     if len(sinks) == 1:
         st, cond, env = sinks[0]
